@@ -170,6 +170,14 @@ SPECS["C09"] = {
         {"name": "H3-resize", "pkg": "engine/pool", "files": ["pool/c09.go"], "fn": "VerifC09Resize",
          "what": "SetWorkerCount(a) then (b, wait) with a,b in 0..2 while a task arrives", "reach": ["resized"],
          "quick": {"params": {"P": 1}, "unwind": 30, "wall_s": 300}, "thorough": {"params": {"P": 2}, "unwind": 30, "wall_s": 1500}},
+        {"name": "H4-rounds", "pkg": "engine/pool", "files": ["pool/c09.go"], "fn": "VerifC09Rounds",
+         "what": "2 rounds of AddTask+WaitAll on one worker (workers woken by an earlier WaitAll broadcast race the next submission)", "reach": ["rounds-done"],
+         "quick": {"params": {"W": 1, "R": 2, "P": 3}, "unwind": 30, "wall_s": 600},
+         "thorough": {"params": {"W": 1, "R": 2, "P": 4}, "unwind": 30, "wall_s": 3000}},
+        {"name": "H4-rounds-W2", "pkg": "engine/pool", "files": ["pool/c09.go"], "fn": "VerifC09Rounds",
+         "what": "2 rounds of AddTask+WaitAll on two workers", "reach": ["rounds-done"],
+         "quick": None,
+         "thorough": {"params": {"W": 2, "R": 2, "P": 2}, "unwind": 30, "wall_s": 3000}},
     ],
     "assumptions": ["pre-emption bound P", "fair-yield rule for time.Sleep polling loops", "sequential consistency"],
     "outside": ["more workers/tasks/pre-emptions than stated", "real-time behaviour of the Go scheduler"],
